@@ -45,7 +45,7 @@ def run(ctx, replay=None):
             ctx.report("implementation child died (rc=%s) on case %s: %s" % (info["rc"], g[len(res)], info["tail"][-500:]),
                        {"stage": "impl-crash", "case": list(g[len(res)])}, found_input=True)
         for (name, seed), r in zip(g, res):
-            ok = not r.get("err") and not r.get("diff") and r.get("fit_returns_self")
+            ok = not r.get("err") and not r.get("diff") and r.get("fit_returns_self") and not r.get("refit_diff")
             ctx.count_case([name, seed], nontrivial=bool(r.get("nnz")), kind=name)
             if ok:
                 continue
@@ -53,6 +53,9 @@ def run(ctx, replay=None):
                 what = "%s(seed %d, %s): %s: %s" % (name, seed, r.get("params"), r["err"], r.get("msg"))
             elif not r.get("fit_returns_self"):
                 what = "%s.fit(X) does not return the estimator" % name
+            elif not r.get("diff"):
+                what = ("%s(seed %d, %s): an estimator that was fitted and used before gives different results after "
+                        "refitting on X than a fresh one: %s" % (name, seed, r.get("params"), r["refit_diff"]))
             else:
                 what = "%s(seed %d, %s): fit_transform(X) != fit(X).transform(X): %s" % (name, seed, r.get("params"), r["diff"])
             ctx.report(what, {"stage": "oracle", "case": [name, seed], "result": r})
